@@ -85,4 +85,8 @@ example : ∃ s, run 2 true (mkSt 2 3)
     [.begin 0 0, .begin 1 0, .begin 2 0, .atom 0, .atom 1, .atom 0, .atom 1, .atom 1, .atom 1, .atom 2] = some s ∧
     s.threads[0]? = some (.owner 1) ∧ s.threads[1]? = some (.owner 0) := ⟨_, rfl, rfl, rfl⟩
 
+/-- the assumption `c05_stable` rests on — a thread that holds an ID does not enter the claim loop again — is the
+    shape of `HeartBeater::HasID` ("the ID pointer is non-null"), extracted from the source on every run -/
+theorem c05_accessors_as_modelled : Gen.heartBeaterAccessorsAsModelled = true := by decide
+
 end CppUtil.Props
